@@ -67,7 +67,8 @@ def gen_spec(seed):
                     if off in free:
                         free.remove(off)
                     t["vars"].append(dict(sm=sm, off=off, size=bit,
-                                          via=rng.choice(["pdo", "packet"])))
+                                          via=rng.choice(["pdo", "packet",
+                                                          "override"])))
                     continue
                 fmt = rng.choice(FMTS)
                 w = struct.calcsize(fmt)
@@ -110,6 +111,12 @@ def build(ecm, eth, spec, fast):
             if v["via"] == "pdo":
                 t.pdos[0x6000 + vi, 1] = (sm, v["off"], v["size"])
                 pv = ecm.ProcessDesc(0x6000 + vi, 1).__get__(t, type(t))
+            elif v["via"] == "override":
+                # the PDO map describes a whole byte; the variable is
+                # declared as one bit of it (size given in ProcessDesc)
+                t.pdos[0x6000 + vi, 1] = (sm, v["off"], "B")
+                pv = ecm.ProcessDesc(0x6000 + vi, 1, v["size"]) \
+                    .__get__(t, type(t))
             else:
                 pv = ecm.PacketDesc(sm, v["off"], v["size"]).__get__(t, type(t))
             links.append((ti, vi, v, pv))
